@@ -1,6 +1,7 @@
 package abft
 
 import (
+	"github.com/Fantom-foundation/lachesis-base/hash"
 	"github.com/Fantom-foundation/lachesis-base/inter/dag"
 	"github.com/Fantom-foundation/lachesis-base/inter/idx"
 	"github.com/Fantom-foundation/lachesis-base/inter/pos"
@@ -20,8 +21,12 @@ func verifC07(kind, V, rounds int, seed uint32) {
 	// dirty instance: before every real event, a speculative Build that is never processed and a
 	// Process with a wrong claimed frame (symbolic which), then a Build of the real event.
 	dirty := newVNode(r.vals, nil, nil, nil)
-	junk := sym.Choice("junk", 3) // 0: speculative build, 1: wrong frame above, 2: both
-	at := sym.Choice("at", 3)     // inject before every event / only before every 2nd / only in the second half
+	junk := sym.Choice("junk", 4) // 0: speculative build, 1: wrong frame above, 2: both, 3: decoy build (other parents)
+	last := make([]int, V)        // latest event of every validator among those fed so far
+	for v := range last {
+		last[v] = -1
+	}
+	at := sym.Choice("at", 3) // inject before every event / only before every 2nd / only in the second half
 	for i, e := range r.d.evs {
 		inject := at == 0 || (at == 1 && i%2 == 1) || (at == 2 && i >= len(r.d.evs)/2)
 		if inject && (junk == 0 || junk == 2) {
@@ -38,8 +43,44 @@ func verifC07(kind, V, rounds int, seed uint32) {
 			sym.Assert(err == ErrWrongFrame, "a frame above the allowed one is rejected with ErrWrongFrame")
 			delete(dirty.events, bad.ID())
 		}
+		if inject && junk == 3 {
+			// a DIFFERENT event of the same creator and sequence number: it references the newest event of every
+			// other validator; it is built (and in every second case also rejected for a wrong frame), never connected
+			c := r.d.script[i].creator
+			decoy := &dag.MutableBaseEvent{}
+			decoy.SetEpoch(1)
+			decoy.SetCreator(e.Creator())
+			decoy.SetSeq(e.Seq())
+			var parents hash.Events
+			lamport := idx.Lamport(0)
+			if sp := r.d.script[i].self; sp >= 0 {
+				parents = append(parents, r.d.evs[sp].ID())
+				lamport = r.d.evs[sp].Lamport()
+			}
+			for v := 0; v < V; v++ {
+				if v != c && last[v] >= 0 {
+					parents = append(parents, r.d.evs[last[v]].ID())
+					lamport = idx.MaxLamport(lamport, r.d.evs[last[v]].Lamport())
+				}
+			}
+			decoy.SetParents(parents)
+			decoy.SetLamport(lamport + 1)
+			sym.Assert(dirty.lch.Build(decoy) == nil, "Build of a decoy succeeds")
+			if i%2 == 1 {
+				decoy.SetFrame(decoy.Frame() + 1)
+				decoy.SetID(vTail(2000 + i))
+				dirty.events[decoy.ID()] = decoy
+				sym.Assert(dirty.lch.Process(decoy) == ErrWrongFrame, "a frame above the allowed one is rejected with ErrWrongFrame")
+				delete(dirty.events, decoy.ID())
+			}
+			spec := r.d.materialise(i, 1) // and the real event, built on the instance that saw the decoys
+			sym.Assert(dirty.lch.Build(spec) == nil, "speculative Build succeeds")
+			sym.Assert(spec.Frame() == e.Frame(), "Build assigns the same frame on the instance with earlier builds/rejections (C07)")
+			sym.Reach("decoy")
+		}
 		dirty.events[e.ID()] = e
 		sym.Assert(dirty.lch.Process(e) == nil, "later events are accepted exactly as on the clean instance (C07)")
+		last[r.d.script[i].creator] = i
 	}
 	sym.Assert(sameBlocks(r.n0.blocks, dirty.blocks), "blocks are identical to those of the instance that never saw the built/rejected events (C07)")
 	r.checkBlocks(dirty)
@@ -184,6 +225,9 @@ func verifC09(kind, V, rounds int, seed uint32) {
 	ref2 := &vRef{d: d2, w: newWs, q: newVals.Quorum(), frames: make([]idx.Frame, len(script2))}
 	direct := newVNode(r.vals, nil, nil, nil)
 	sym.Assert(direct.lch.Reset(2, newVals) == nil, "Reset to the new epoch succeeds")
+	// and an instance restarted from the persisted databases right after the seal (C08 across an epoch boundary)
+	restarted := newVNode(nil, copyDB(n.store.mainDB), map[idx.Epoch]kvdb.Store{2: copyDB(n.store.epochDB)}, n.events)
+	sym.Assert(restarted.store.GetEpoch() == 2 && restarted.store.GetLastDecidedFrame() == 0, "epoch and last decided frame survive a restart right after the seal (C08)")
 	for i := range script2 {
 		e := d2.materialise(i, 2)
 		d2.evs[i] = e
@@ -194,6 +238,7 @@ func verifC09(kind, V, rounds int, seed uint32) {
 		sym.Assert(n.lch.Process(e) == nil, "new-epoch event accepted")
 		direct.events[e.ID()] = e
 		sym.Assert(direct.lch.Process(e) == nil, "new-epoch event accepted by the instance reset directly to the new epoch")
+		sym.Assert(restarted.lch.Process(e) == nil, "new-epoch event accepted by the instance restarted right after the seal (C08)")
 	}
 	want := ref2.decideAll()
 	newBlocks := n.blocks[nOld:]
@@ -205,6 +250,7 @@ func verifC09(kind, V, rounds int, seed uint32) {
 		}
 	}
 	sym.Assert(sameBlocks(newBlocks, direct.blocks), "an instance reset directly to the new epoch emits the same blocks")
+	sym.Assert(sameBlocks(newBlocks, restarted.blocks), "an instance restarted right after the seal emits the same blocks as the one that kept running (C08)")
 	if len(newBlocks) > 0 {
 		sym.Reach("new-epoch-block")
 	}
@@ -292,3 +338,6 @@ func verifC08Store(nOps int) {
 
 func VerifH_C08_store2() { verifC08Store(2) }
 func VerifH_C08_store3() { verifC08Store(3) }
+
+func VerifH_C07_chainV3() { verifC07(1, 3, 6, 1) }
+func VerifH_C07_lcgV3()   { verifC07(4, 3, 6, 7) }
